@@ -432,7 +432,7 @@ func checkC09(c *Check) {
 			continue
 		}
 		nw := 0
-		for _, ci := range callInstrs(fn) {
+		for _, ci := range callInstrsDeep(fn, 2) {
 			n, _ := calleeOf(ci)
 			if !strings.HasSuffix(n, ".Wait4") {
 				continue
@@ -441,6 +441,28 @@ func checkC09(c *Check) {
 			// the status pointer is nil for reaping-only waits (wait-all), those may use -1
 			if isNilConst(ci.Common().Args[1]) {
 				continue
+			}
+			// likewise a wait whose status cell is never read (a reaping loop in a helper)
+			if cell, isAlloc := stripConv(ci.Common().Args[1]).(*ssa.Alloc); isAlloc {
+				read := false
+				for _, r := range *cell.Referrers() {
+					switch x := r.(type) {
+					case *ssa.DebugRef:
+					case *ssa.Store:
+						if x.Addr != ssa.Value(cell) {
+							read = true
+						}
+					case ssa.CallInstruction:
+						if n2, _ := calleeOf(x); !strings.HasSuffix(n2, ".Wait4") {
+							read = true
+						}
+					default:
+						read = true
+					}
+				}
+				if !read {
+					continue
+				}
 			}
 			nw++
 			ok := false
